@@ -25,4 +25,7 @@ def scenarios(ctx):
              policy=dict(p_loss=0.15, retries=(-1, -1, 0)), world=dict(start_seq="alt", mtu=576)),
         dict(name="guaranteed-fragments", n=4 if q else 30, nticks=1000 if q else 3000, heal_after=600 if q else 2400,
              policy=dict(p_send=0.2, p_loss=0.12, retries=(-1,), lens=[1500, 2000, 2451, 2452, 3000, 3500, 5000, 100]), world=dict(start_seq="alt")),
+        # a lost guaranteed message whose retransmission arrives behind a burst of more than 256 newer messages (the width of the message window)
+        dict(name="guaranteed-under-bursts", n=4 if q else 30, nticks=900 if q else 2500, heal_after=600 if q else 2000,
+             policy=dict(p_send=0.15, p_loss=0.2, retries=(-1,), lens=[4, 20, 600, 1500], burst=0.03, burst_lens=(4, 4, 5), burst_retries=(0,), maxdelay=4), world=dict(start_seq="alt")),
     ]
